@@ -346,6 +346,8 @@ impl CompactionWorker {
 
                 log::debug!("Determined that the compaction can be completed with a trival move");
                 compaction_manifest.set_change_manifest_for_trivial_move();
+                #[cfg(feature = "verif")]
+                let verif_levels_before = crate::verif::dump_levels(&db_fields_guard.version_set);
                 let apply_result = VersionSet::log_and_apply(
                     db_fields_guard,
                     compaction_manifest.get_change_manifest_mut(),
@@ -376,6 +378,7 @@ impl CompactionWorker {
                     crate::verif::Event::TrivialMove {
                         file: file_to_compact.file_number(),
                         level: compaction_manifest.level(),
+                        levels_before: verif_levels_before,
                     },
                 );
                 log::info!(
@@ -468,6 +471,8 @@ impl CompactionWorker {
 
         log::info!("Compacting the immutable memtable to a table file.");
         let mut change_manifest = VersionChangeManifest::default();
+        #[cfg(feature = "verif")]
+        let verif_levels_before = crate::verif::dump_levels(&db_fields_guard.version_set);
         let base_version = db_fields_guard.version_set.get_current_version();
         let immutable_memtable = db_fields_guard.maybe_immutable_memtable.clone().unwrap();
         let write_table_result = DB::convert_memtable_to_file(
@@ -549,9 +554,20 @@ impl CompactionWorker {
                 .first()
                 .map(|(level, file)| (file.file_number(), *level, file.get_file_size()))
                 .unwrap_or((0, 0, 0));
+            let entries = if size > 0 {
+                crate::verif::table_entries(&db_state.table_cache, file)
+            } else {
+                vec![]
+            };
             crate::verif::event(
                 db_state.options.db_path(),
-                crate::verif::Event::Flush { file, level, size },
+                crate::verif::Event::Flush {
+                    file,
+                    level,
+                    size,
+                    levels_before: verif_levels_before,
+                    entries,
+                },
             );
         }
         DB::remove_obsolete_files(
@@ -801,6 +817,26 @@ impl CompactionWorker {
         db_fields_guard.compaction_stats[compaction_state.compaction_manifest().level() + 1] +=
             compaction_stats;
 
+        #[cfg(feature = "verif")]
+        let verif_levels_before = crate::verif::dump_levels(&db_fields_guard.version_set);
+        #[cfg(feature = "verif")]
+        let verif_input_entries: Vec<(u64, Vec<crate::verif::Entry>)> = compaction_state
+            .compaction_manifest()
+            .get_compaction_level_files()
+            .iter()
+            .chain(
+                compaction_state
+                    .compaction_manifest()
+                    .get_parent_level_files()
+                    .iter(),
+            )
+            .map(|file| {
+                (
+                    file.file_number(),
+                    crate::verif::table_entries(&db_state.table_cache, file.file_number()),
+                )
+            })
+            .collect();
         if compaction_error.is_none() {
             let install_result = CompactionWorker::install_compaction_results(
                 db_fields_guard,
@@ -831,6 +867,23 @@ impl CompactionWorker {
                             .map(|file| file.file_number())
                             .collect(),
                         manual: db_fields_guard.maybe_manual_compaction.is_some(),
+                        last_sequence: db_fields_guard.version_set.get_prev_sequence_number(),
+                        levels_before: verif_levels_before,
+                        input_entries: verif_input_entries,
+                        output_entries: compaction_state
+                            .get_output_files()
+                            .iter()
+                            .filter(|file| file.get_file_size() > 0)
+                            .map(|file| {
+                                (
+                                    file.file_number(),
+                                    crate::verif::table_entries(
+                                        &db_state.table_cache,
+                                        file.file_number(),
+                                    ),
+                                )
+                            })
+                            .collect(),
                     },
                 );
             }
